@@ -206,7 +206,12 @@ def run (j : Json) : Except String Json := do
   let s ← Schema.ofJson sj
   let defs ← defsJ.mapM fun (n, d) => do pure (n, ← Schema.ofJson d)
   -- text
-  let sites := (defs.map fun (_, d) => stringSites pr d).flatten ++ stringSites pr s
+  -- at top level the emitted `_required` is the list after the `remove`s
+  let emitted (x : Schema) : Schema := match x with
+    | .obj p d (some r) a => .obj p d (requiredAfter (.obj p d (some r) a)) a
+    | .mapOf _ _ _ => .mapAny none none none   -- top-level map: nothing is emitted for it
+    | y => y
+  let sites := (defs.map fun (_, d) => stringSites pr (emitted d)).flatten ++ stringSites pr (emitted s)
     ++ (match desc with | some d => [descriptionSite d] | none => [])
   let unfaithful := sites.filter (fun x => !x.faithful)
   -- the class the emitted text evaluates to (literals as the lexer reads them)
